@@ -188,6 +188,9 @@ type ZoneParser struct {
 
 	includeAllowed     bool
 	generateDisallowed bool
+
+	// again is set by subNext when a sub-parser has ended without a record.
+	again bool
 }
 
 // NewZoneParser returns an RFC 1035 style zonefile parser that reads
@@ -303,8 +306,12 @@ func (zp *ZoneParser) subNext() (RR, bool) {
 		return nil, false
 	}
 
+	// The sub-parser is done: carry on in this file. Next loops instead of
+	// being called from here, so that a run of $INCLUDE or $GENERATE
+	// directives that yield no records does not grow the stack.
 	zp.sub = nil
-	return zp.Next()
+	zp.again = true
+	return nil, false
 }
 
 // Next advances the parser to the next RR in the zonefile and
@@ -313,6 +320,16 @@ func (zp *ZoneParser) subNext() (RR, bool) {
 // error. After Next returns (nil, false), the Err method will return
 // any error that occurred during parsing.
 func (zp *ZoneParser) Next() (RR, bool) {
+	for {
+		rr, ok := zp.next()
+		if !zp.again {
+			return rr, ok
+		}
+		zp.again = false
+	}
+}
+
+func (zp *ZoneParser) next() (RR, bool) {
 	if zp.parseErr != nil {
 		return nil, false
 	}
